@@ -101,6 +101,96 @@ def check_rk_retry(F, run):
         run.check(c02.accept_guard(b, r) < 0, "R5.2", dp, "redo-only-on-reject", F.loc(b, r), "Redo is not tied to a rejected estimate")
 
 
+def check_rk_reject_shrinks(F, run):
+    """On a rejected RK step (estimate > tolerance) every feasible write to dt multiplies it by a factor <= 1."""
+    t = M.rk_effective_tableau(F, M.RK_IMPLS["RKCoefficients45"][0], 6)
+    fields = t["fields"]
+    b = M.method_of(F, "ivp::rk::RungeKuttaSolver<", "IVPStepper", "step")
+    dp = "RungeKuttaSolver::step"
+    tol, dt, s_ = sp.Symbol("tolerance", positive=True), sp.Symbol("dt", positive=True), sp.Symbol("s_excess", positive=True)
+    err = sp.Symbol("error", positive=True)
+
+    def interp_for(n):
+        it = nalg.NInterp(F, b, {"O": 6})
+        for k, v in fields.items():
+            if hasattr(v, "is_number") and v.is_number:
+                it.fields["self." + k] = v
+        for nm in ("time", "end", "dt_max", "dt_min"):
+            it.fields["self." + nm] = sp.Symbol(nm, positive=True)
+        it.fields["self.tolerance"] = tol
+        it.fields["self.dt"] = dt
+
+        def bind(expr, depth=0):
+            for x in walk(expr):
+                if x.get("k") == "Local" and x["id"] not in it.env:
+                    if x["name"] == "error":
+                        it.env[x["id"]] = err
+                        continue
+                    d = c01.local_def(b, x["id"], n) if depth < 4 else None
+                    if d is not None:
+                        bind(d, depth + 1)
+                        try:
+                            it.env[x["id"]] = it.ev(d)
+                            continue
+                        except sym.Unsupported:
+                            pass
+                    it.env[x["id"]] = sp.Symbol(x["name"], positive=True)
+        return it, bind
+    writes = [n for n in walk(b["body"], into_closures=False) if n.get("k") in ("Assign", "AssignOp") and place(n["l"]) == "self.dt"]
+    n_checked = 0
+    for w in writes:
+        cls, detail = c01.classify_dt_write(F, b, w)
+        if cls in ("clip", "clamp"):
+            continue
+        it, bind = interp_for(w)
+        bind(w["r"])
+        try:
+            r = it.ev(w["r"])
+        except sym.Unsupported as u:
+            run.broken("R5.4", dp, "reject-write:" + pp(w)[:40], F.loc(b, w), str(u))
+            continue
+        if w["k"] == "AssignOp" and w["op"] == "MulAssign":
+            factor = r
+        elif w["k"] == "AssignOp" and w["op"] == "DivAssign":
+            factor = 1 / r
+        else:
+            factor = r / dt
+        rej = {err: tol * (1 + s_)}
+        # feasibility of the write's own guards on a rejected step
+        g = cfg.guards_of(b["body"], w)
+        feasible = True
+        for l in cfg.conj_lits(g):
+            it2, bind2 = interp_for(w)
+            bind2(l[1])
+            try:
+                c = it2.ev(l[1])
+            except Exception:
+                continue
+            c = c.subs(rej) if hasattr(c, "subs") else c
+            if not l[2]:
+                c = sp.Not(c)
+                c = c.args[0].negated if isinstance(c, sp.Not) and hasattr(c.args[0], "negated") else c
+            if isinstance(c, (sp.Ge, sp.Gt)) and c.rhs.is_number and c.rhs >= 1:
+                try:
+                    if c01.lt_one(c.lhs) and (isinstance(c, sp.Gt) or c.rhs > 1 or True):
+                        feasible = False
+                except Exception:
+                    pass
+        if not feasible:
+            run.ok("R5.4", "rk-reject-infeasible", "%s: `%s` cannot execute on a rejected step (its guard needs a factor >= 1)" % (dp, pp(w)[:40]))
+            continue
+        n_checked += 1
+        f2 = factor.subs(rej) if hasattr(factor, "subs") else factor
+        try:
+            good = c01.lt_one(f2)
+        except Exception:
+            good = False
+        run.check(good, "R5.4", dp, "reject-shrinks:" + pp(w)[:44], F.loc(b, w),
+                  "on a rejected step `%s` changes dt by the factor %s, which is not provably <= 1: the same step can be retried forever without MinimumTimeDeltaExceeded"
+                  % (pp(w)[:60], sp.simplify(f2)), sample="RK reject path: %s (factor %s)" % (pp(w)[:40], sp.simplify(f2)))
+    run.floor("R5.4", dp, "controller writes feasible on a rejected step", n_checked, 2, F.loc(b))
+
+
 def check_multistep_retry(F, run):
     for kind, impls in (("adams", M.ADAMS_IMPLS), ("bdf", M.BDF_IMPLS)):
         for name, (selfty, O) in impls.items():
@@ -200,6 +290,10 @@ def check_controller_constants(F, run):
 def run(F, run, tier):
     check_who_may_fail(F, run)
     check_rk_retry(F, run)
+    try:
+        check_rk_reject_shrinks(F, run)
+    except (Missing, sym.Unsupported) as e:
+        run.broken("R5.4", "RungeKuttaSolver::step", "reject-shrinks", "src/ivp/rk.rs", str(e))
     check_multistep_retry(F, run)
     check_while_loops(F, run)
     check_controller_constants(F, run)
